@@ -31,9 +31,14 @@ def chain_monitor(info, xs, execs, wfe, obs, pol):
             out.append("C06/retry-before-its-delay: retry %d started %s s after the failure, the policy asked for %s s"
                        % (k, float(gap), returned))
         documented = Fraction(max(w(k - 1), 0.0))           # strategies are indexed from 0: first retry = first strategy
-        if gap < documented:
+        shifted = Fraction(max(w(k), 0.0))                  # the known defect: the strategy evaluated at index k
+        if gap < documented and gap == shifted:
             out.append("%s: retry %d started %s s after failure %d, earlier than the %s s the strategy documents for it "
                        "(the strategy was evaluated at index %d instead of %d)" % (K_SHIFT, k, float(gap), k, float(documented), k, k - 1))
+        elif gap < documented:
+            out.append("C06/retry-earlier-than-documented: retry %d started %s s after failure %d, earlier than the %s s the "
+                       "strategy documents for it (and not the strategy's value at index %d either: %s s)"
+                       % (k, float(gap), k, float(documented), k, float(shifted)))
         elif k == 1 and isinstance(w, (rp.wait_chain, rp.wait_exponential, rp.wait_exponential_jitter)) and gap != documented:
             out.append("%s: the first retry waited %s s, not the first strategy / initial delay %s s"
                        % (K_SHIFT, float(gap), float(documented)))
